@@ -345,7 +345,26 @@ func (in *c15Interp) cond(st *c15State, e ast.Expr) (yes, no []*c15State) {
 				case token.NEQ:
 					b.facts = append(b.facts, ge(d), ge(neg(d)))
 				}
-				return []*c15State{a}, []*c15State{b}
+				// an outcome that contradicts what is already known on this path is infeasible: drop it
+				feasible := func(ns *c15State) bool {
+					for _, f := range ns.facts[len(st.facts):] {
+						if f.ge != nil && st.implies(neg(*f.ge).add(affConst(1), -1)) {
+							return false
+						}
+					}
+					return true
+				}
+				var ya, nb []*c15State
+				if feasible(a) {
+					ya = []*c15State{a}
+				}
+				if feasible(b) {
+					nb = []*c15State{b}
+				}
+				if len(ya)+len(nb) == 0 { // contradictory knowledge: keep both rather than lose the path
+					return []*c15State{a}, []*c15State{b}
+				}
+				return ya, nb
 			}
 		}
 	case *ast.Ident:
